@@ -1,3 +1,4 @@
+\* quick profile A (the driver writes one cfg per profile, see harness/c04_omega.py)
 CONSTANTS
   MaxRecs = 2
   MaxEtas = 4
